@@ -96,6 +96,20 @@ func init() {
 			fmt.Fprintf(&e.b, "Definition diff_string_literals : list string := %s.\n", c16StrList(lits))
 			fmt.Fprintf(&e.b, "Definition diff_tiebreak : list string := %s.\n", c16StrList(ties))
 		}
+		// ---- where locations are captured: bigslice.Func records runtime.Caller(1),
+		// the place Func was called from (skip 0 would be func.go itself)
+		if fd := root.findFunc("Func"); fd == nil || fd.Body == nil {
+			e.fail("function Func not found")
+		} else {
+			var skips []string
+			ast.Inspect(fd.Body, func(n ast.Node) bool {
+				if call, ok := n.(*ast.CallExpr); ok && types.ExprString(call.Fun) == "runtime.Caller" && len(call.Args) == 1 {
+					skips = append(skips, types.ExprString(call.Args[0]))
+				}
+				return true
+			})
+			fmt.Fprintf(&e.b, "Definition func_caller_skips : list string := %s.\n", c16StrList(skips))
+		}
 		// ---- isNilAssignable: the kinds listed before `default`
 		if fd := root.findFunc("isNilAssignable"); fd == nil || fd.Body == nil {
 			e.fail("function isNilAssignable not found")
@@ -242,6 +256,28 @@ func init() {
 			if mkPos == token.NoPos {
 				e.fail("Session.run: call makeExecInvocation not found")
 			}
+			// the invocation's location: runtime.Caller(calldepth + 1) in run, which
+			// Run and Must call with calldepth 1
+			var skips []string
+			ast.Inspect(fd.Body, func(n ast.Node) bool {
+				if call, ok := n.(*ast.CallExpr); ok && types.ExprString(call.Fun) == "runtime.Caller" && len(call.Args) == 1 {
+					skips = append(skips, types.ExprString(call.Args[0]))
+				}
+				return true
+			})
+			for _, name := range []string{"Session.Run", "Session.Must"} {
+				if fd2 := ex.findFunc(name); fd2 != nil && fd2.Body != nil {
+					ast.Inspect(fd2.Body, func(n ast.Node) bool {
+						if call, ok := n.(*ast.CallExpr); ok && types.ExprString(call.Fun) == "s.run" && len(call.Args) >= 2 {
+							skips = append(skips, name+": "+types.ExprString(call.Args[1]))
+						}
+						return true
+					})
+				} else {
+					e.fail("method %s not found", name)
+				}
+			}
+			fmt.Fprintf(&e.b, "Definition run_location_skips : list string := %s.\n", c16StrList(skips))
 			fmt.Fprintf(&e.b, "Definition run_rejects_nil_result : bool := %s.\n", c15Bool(testPos != token.NoPos && testPos < mkPos))
 		}
 		if fd := ex.findFunc("execInvocation.directEncodedFields"); fd == nil || fd.Body == nil {
